@@ -192,7 +192,15 @@ class G:
             y = r.choice(ys); objs[x] = (kind, n + objs[y][1])
             return "%s %d" % (p, y)
         if op in ("topological_closure_assign", "closure", "reduction", "obs_constraints", "obs_minimized_constraints", "obs_is_empty"): return p
-        if op == "incremental_closure": return "%s %d" % (p, r.randrange(n))
+        if op == "incremental_closure":
+            # closure, then one constraint involving variable v, then the incremental closure on v
+            v = r.randrange(n)
+            terms = [(v, r.choice([-1, 1]))]
+            if f != "box" and n > 1 and r.random() < 0.7:
+                w = r.choice([k for k in range(n) if k != v])
+                terms = [(v, 1), (w, -1)] if f == "bds" else terms + [(w, r.choice([-1, 1]))]
+                if f == "bds" and r.random() < 0.5: terms = [(v, -1), (w, 1)]
+            return "%s %d %s" % (p, v, self.con_from(n, terms, car(kind), allow_eq=False))
         if op in ("affine_image", "affine_preimage"):
             v = r.randrange(n); den, e = self.expr(n, kind, v)
             return "%s %d %d %s" % (p, v, den, e)
